@@ -81,7 +81,9 @@ impl AnyCodec for c5::Codec {
         let c = c5::Codec::new();
         c.set_max_inbound_size(max_in);
         c.set_min_chunk_size(min_chunk);
-        c
+        // (for even settings the configured codec is handed on as a clone, the way Client::into_inner hands it on: a clone
+        // carries the configuration)
+        if min_chunk != 0 && min_chunk % 2 == 0 { c.clone() } else { c }
     }
     fn step(&self, buf: &mut BytesMut) -> Result<Option<Item5>, DecodeError> {
         Ok(self.decode(buf)?.map(|d| match d {
@@ -103,7 +105,7 @@ impl AnyCodec for c3::Codec {
         let c = c3::Codec::new();
         c.set_max_size(max_in);
         c.set_min_chunk_size(min_chunk);
-        c
+        if min_chunk != 0 && min_chunk % 2 == 0 { c.clone() } else { c }
     }
     fn step(&self, buf: &mut BytesMut) -> Result<Option<Item3>, DecodeError> {
         Ok(self.decode(buf)?.map(|d| match d {
